@@ -25,7 +25,7 @@
 
    OUTCOMES.  Ok y = resolve returned no error and left YangType = y;  Err = a non-empty error list (error
    lists are collapsed: after the first error the Go code only ever appends more errors, it cannot panic);
-   Unmodelled = the fuel ran out (excluded by TypesProofs.resolve_fuel_enough: number of typedefs + 1
+   Unmodelled = the fuel ran out (excluded by TypesProofs.resolve_total: number of typedefs + 1
    suffices).  No reachable Go panic remains in this code after the fixes of D05/D06/D09, so no Panic branch.
 
    MEMOISATION.  Typedef.YangType / Type.YangType+resolveErrs memoise results; a memoised success is what a
@@ -305,7 +305,7 @@ Fixpoint whole_loop (S : schema) (fuel : nat) (done queue : list nat) : list nat
 Definition pending_includes (S : schema) (done : list nat) : nat :=
   list_sum (map (fun m => if nat_mem m done then 0 else length (includes S m)) (seq 0 (length S))).
 
-(* enough for the loop to run to completion: TypesProofs.whole_loop_complete *)
+(* enough for the loop to run to completion: TypesProofs.whole_loop_complete, wholeModule_spec *)
 Definition whole_fuel (S : schema) : nat := 3 + pending_includes S [].
 
 Definition wholeModule (S : schema) (root : nat) : list nat :=
